@@ -127,6 +127,9 @@ def cli_entry_cycle_shape(row):
         return False
     if "ModuleNotFoundError: No module named 'm%s'" % root in impl:
         return True
+    if "(compile ok)" in impl and "AttributeError: module '__main__' has no attribute" in impl:
+        # the entry, analysed a second time as `m<root>`, is looked up in `__main__` at run time
+        return True
     errs = re.findall(r"\(e:(\w+) ", impl)
     return bool(errs) and all(e == "AttributeError" for e in errs)
 
